@@ -198,6 +198,16 @@ def classify_loop(pr, hdr, blocks):
         pg = _progress_guard(pr, hdr, blocks, l)
         if pg and all(_def_is_remainder_of(pr, d, l) for d in indefs):
             return "progress-guard", True, "left when an iteration does not shorten `%s`" % vx.root_name(l)
+    # a slice that is not modified inside the loop at all, in a loop that is left when an iteration did
+    # not shorten it: at most one full iteration
+    for l, loc in enumerate(b.locals):
+        if ty_str(loc["ty"]) != "&[u8]" or l in vx.mw:
+            continue
+        if any(d[0] in blocks for d in tr.defs.get(l, [])):
+            continue
+        if _progress_guard(pr, hdr, blocks, l):
+            return "progress-guard", True, ("`%s` is not assigned in the loop and the loop is left when an iteration "
+                                            "does not shorten it" % vx.root_name(l))
     return "unknown", False, "no termination argument found: " + "; ".join(why[:3])
 
 
